@@ -15,7 +15,7 @@ from ..compile import World
 from ..ctx import CTX, RunTooBig
 from ..history import History, canon, canon_outcome, digest
 from ..rng import Streams, chance, pick, weighted
-from ..sim import apply_op, build_sim, locations, readable
+from ..sim import apply_op, form_of, build_sim, locations, readable
 from ..world import gen_inputs, gen_request, gen_situation, gen_value, gen_world, wide_knob
 from . import Result
 from .c13 import structure
@@ -77,6 +77,9 @@ def generate(seed: int, tier: str) -> dict:
             history.append({"do": ["set_input", v["name"], per, [gen_value(orr, v, world) for _ in range(orr.randint(1, 3))]]})
         else:
             history.append({"do": ["delete_arrays", v["name"]]})
+    if chance(orr, 0.2):
+        # the simulation that gets dumped is a copy taken mid-way (Simulation.clone)
+        history.insert(orr.randrange(len(history) + 1), {"do": ["clone"]})
     after = [{"do": gen_request(orr, world)} for _ in range(orr.randint(2, 5))]
     return {
         "format": 1,
@@ -155,7 +158,12 @@ def run(scn) -> Result:
                 if hand_set_positions(sim, random.Random(scn["positions_seed"])):
                     res.count("probe:member_positions_set_by_hand")
             for op in scn["ops"]:
-                out = apply_op(sim, world, op["do"])
+                if op["do"][0] == "clone":
+                    sim = sim.clone()
+                    H.add("O", "clone", None, None)
+                    res.count("probe:dumped_simulation_is_a_clone")
+                    continue
+                out = apply_op(sim, world, op["do"], form=form_of(op["do"], len(H.events)))
                 H.add("O", op["do"][0], op["do"][1:], canon_outcome(out))
                 res.count("steps")
             R0 = readable(sim, env)
@@ -268,7 +276,7 @@ def run(scn) -> Result:
             # C19.calc -----------------------------------------------------------
             if not res.violations:
                 for op, exp in zip(scn["after"], expected_after):
-                    out = apply_op(restored, world, op["do"])
+                    out = apply_op(restored, world, op["do"], form=form_of(op["do"], 7))
                     H.add("R", op["do"][0], op["do"][1:], canon_outcome(out))
                     res.count("steps")
                     res.count("clause:C19.calc")
